@@ -18,6 +18,7 @@ _TRUSTED = ["plug-in instances from plugin.NewReportingPluginFactory with in-mem
             "Model/Validate.v (validation model, tied to the code by the C15 check)"]
 
 CFG = dict(
+    shrink_fields=['obs'],
     pkg="c01",
     tests=["TestC01", "TestC01Uid"],
     case_files={"cases": "c01:TestC01", "cases_uid": "c01:TestC01Uid"},
